@@ -572,7 +572,11 @@ class KeyPath(formatting.Formattable):
         return comparison(self.key, other.key)
       if is_int_or_str(self.key) and is_int_or_str(other.key):
         # One is a str; the other is an int or str. Compare lexicographically.
-        return comparison(str(self.key), str(other.key))
+        # An int key goes before the str key of the same text (0 vs '0'), as
+        # they are different keys.
+        return comparison(
+            (str(self.key), is_str(self.key)),
+            (str(other.key), is_str(other.key)))
       # One or both is a custom key. Delegate comparison to its magic methods.
       return comparison(self.key, other.key)
 
